@@ -44,7 +44,25 @@ fn record(idx: u64, sc: &Scenario, out: RunOut, agg: &mut Agg, known: &KnownFind
         agg.sample(idx, || json!({"scenario": sc, "fingerprint": format!("{:016x}", out.fp), "observations_inside_jump_window": out.jump_hits}), 4);
     }
     if let Some(fail) = out.fail {
-        let (min_sc, min_fail) = shrink::minimise(sc, &fail);
+        // The batch executes many walks per worker thread; whatever a change makes the system under test keep in
+        // thread-locals or statics survives from one walk to the next there. A replay file must stand on its own:
+        // the walk is first re-executed on a thread of its own, then minimised (every candidate on a fresh thread),
+        // and the result is confirmed in a fresh process; otherwise the walk is reported as generated, with a note.
+        let mut note = None;
+        simcore::post_processing_begins(15, known.matches(PROPERTY, &fail.class).is_none());
+        let sc1 = sc.clone();
+        let alone = simcore::with_timeout(move || execute(&sc1)).and_then(|o| o.fail).filter(|f| f.class == fail.class);
+        let (mut min_sc, mut min_fail) = match &alone {
+            Some(f) => shrink::minimise(sc, f),
+            None => (sc.clone(), fail.clone()),
+        };
+        let engine = "e3";
+        if alone.is_none() || simcore::reproduces_in_fresh_process(PROPERTY, &min_fail.class, &json!({"engine": engine, "minimised": min_sc}), idx) == Some(false) {
+            (min_sc, min_fail) = (sc.clone(), fail.clone());
+            if alone.is_none() || simcore::reproduces_in_fresh_process(PROPERTY, &min_fail.class, &json!({"engine": engine, "minimised": min_sc}), idx) == Some(false) {
+                note = Some("not reproduced by this walk alone on a fresh thread / in a fresh process: the violation depends on state the system under test kept from earlier walks of the batch (thread-local or process-wide); re-run the batch with the same VERIF_SEED to see it again");
+            }
+        }
         let sig = min_fail.class.clone();
         if let Some(what) = known.matches(PROPERTY, &sig) {
             let e = agg.known.entry(sig).or_insert((0, what.to_string()));
@@ -56,7 +74,7 @@ fn record(idx: u64, sc: &Scenario, out: RunOut, agg: &mut Agg, known: &KnownFind
                     run: idx,
                     class: min_fail.class.clone(),
                     detail: format!("step {}: {}", min_fail.step, min_fail.detail),
-                    scenario: json!({"engine": "e3", "minimised": min_sc, "original_steps": sc.steps.len(), "minimised_steps": min_sc.steps.len()}),
+                    scenario: json!({"engine": "e3", "minimised": min_sc, "original_steps": sc.steps.len(), "minimised_steps": min_sc.steps.len(), "note": note}),
                 },
             );
         }
